@@ -144,13 +144,13 @@ def c16_8(ctx: Ctx):
                   key=f"C16.8::cs::{cname}")
         rets = [n for n in walk_no_nested(m.node) if isinstance(n, ast.Return)]
         ctx.check(len(rets) == 1 and src(rets[0].value) == "results", m, m.node, f"{cname}.caller_saved_registers returns the built set", "return changed")
-    prefixes = {"_X86_64_ELF": ".L", "_X86_64_PE": ".L", "_IA32_PE": "L", "_ARM64_ELF": ".L", "_MIPS32_ELF": ".L"}
+    prefixes = {"_X86_64_ELF": ".L", "_X86_64_PE": ".L", "_IA32_PE": "L", "_ARM64_ELF": ".L", "_MIPS32_ELF": "$L"}  # private-label prefix of the LLVM target (mips O32: `$`)
     for cname, w in prefixes.items():
         m = repo.method(repo.cls(f"abi.{cname}"), "temporary_label_prefix")
         rets = [n for n in walk_no_nested(m.node) if isinstance(n, ast.Return)] if m else []
         got = rets[0].value.value if len(rets) == 1 and isinstance(rets[0].value, ast.Constant) else None
         ctx.check(got == w, m or repo.cls(f"abi.{cname}").mod, None, f"{cname}.temporary_label_prefix() == {w!r}", f"returns {got!r}", key=f"C16.8::prefix::{cname}")
-    cols = {"_X86_64_ELF": 16, "_ARM64_ELF": 32, "_MIPS32_ELF": 32}
+    cols = {"_X86_64_ELF": 16, "_ARM64_ELF": 30, "_MIPS32_ELF": 31}  # CIE return address column: RIP=16, x30 (LR), $ra (r31)
     for cname, w in cols.items():
         m = repo.method(repo.cls(f"abi.{cname}"), "default_dwarf_eh_return_column")
         rets = [n for n in walk_no_nested(m.node) if isinstance(n, ast.Return)] if m else []
